@@ -11,6 +11,7 @@ package k8s
 
 import (
 	"context"
+	"encoding/json"
 	"fmt"
 	"os"
 	"strconv"
@@ -491,7 +492,7 @@ func vfC15ValidStoreItem(t *rapid.T) []byte {
 
 func vfC15GenStore(t *rapid.T) vfC15StoreScenario {
 	s := vfC15StoreScenario{Kind: g.Kind(t)}
-	s.Disk = rapid.IntRange(0, 15).Draw(t, "disk") == 0
+	s.Disk = rapid.IntRange(0, 15).Draw(t, "disk") == 15
 	s.PodLive = rapid.Bool().Draw(t, "live")
 	n := rapid.IntRange(1, 3).Draw(t, "n")
 	mut := rapid.IntRange(0, n-1).Draw(t, "mut")
@@ -508,8 +509,22 @@ func vfC15GenStore(t *rapid.T) vfC15StoreScenario {
 	return s
 }
 
+const vfC15NilPod = "C15-podstore-nil-pod"
+
 func vfC15RunStore(c *vt.Ctx, s vfC15StoreScenario) {
 	c.Label("kind:" + s.Kind)
+	// class of the finding: a record that decodes, but to an item without pod info
+	for _, r := range s.Records {
+		var probe struct{ Pod *json.RawMessage }
+		if json.Unmarshal(r.V, &probe) == nil && (probe.Pod == nil || string(*probe.Pod) == "null") {
+			c.Label("class:nil-pod")
+			if vt.Known(vfC15NilPod) {
+				c.Label("known:" + vfC15NilPod)
+				return
+			}
+			break
+		}
+	}
 	pod := &corev1.Pod{ObjectMeta: metav1.ObjectMeta{Name: "p0", Namespace: "ns"}}
 	pod.Spec.NodeName = "node-1"
 	b := fake.NewClientBuilder().WithScheme(scheme.Scheme)
@@ -586,3 +601,30 @@ func vfC15RunStore(c *vt.Ctx, s vfC15StoreScenario) {
 }
 
 func TestVerifC15PodStore(t *testing.T) { vt.Run(t, vfC15GenStore, vfC15RunStore) }
+
+// Deterministic witness, printed only while the finding is listed as open.
+func TestVerifC15KnownWitnessPodStoreNilPod(t *testing.T) {
+	if !vt.Known(vfC15NilPod) {
+		t.Skip("not listed as an open finding")
+	}
+	panicked := false
+	func() {
+		defer func() {
+			if recover() != nil {
+				panicked = true
+			}
+		}()
+		obj, err := deserialize([]byte(`{}`))
+		if err != nil {
+			return
+		}
+		mem := storage.NewMemoryStorage()
+		_ = mem.Put("ns/p", obj)
+		k := &k8s{client: fake.NewClientBuilder().WithScheme(scheme.Scheme).Build(), mode: daemon.ModeENIMultiIP, nodeName: "node-1",
+			Locker: &sync.RWMutex{}, storage: mem}
+		_ = k.clean()
+	}()
+	if panicked {
+		vt.KnownFindingLine("C15", "a pod-cache record without Pod (e.g. `{}` or `null`) is accepted by deserialize and makes k8s.clean dereference nil in its background goroutine")
+	}
+}
